@@ -18,21 +18,48 @@ CallerOn(a) == EffectiveEscape(a.ns, a.t)
 CalleeOn(a) == CalleeEscape(a.ns, a.t, a.cns, a.ct)
 NoAuto == <<D0("noAutoescape")>>
 
-RenderSite(site, a, chain, v) ==
-  CASE site = "direct" -> PrintText(CallerOn(a), chain, v)
+(***************************************************************************)
+(* A print site may be preceded (or surrounded) by another COMMAND executed *)
+(* by the same template invocation.  The effective escaping of a print is  *)
+(* a function of the template/namespace attributes and the directive chain *)
+(* only: no command leaves interpreter state behind.  The kinds are labels  *)
+(* (the harness owns the Soy text of each); K = "none" is the bare site.    *)
+(*   where = "exec"  : the command runs in the frame that executes the print *)
+(*   where = "other" : it runs in the other frame of a site with a callee    *)
+(* loggerNil: soyhtml.Logger is nil (the default) or installed.              *)
+(***************************************************************************)
+CmdKinds == {"none", "log", "log-print", "let", "callparam", "msg", "css", "debugger", "foreach", "if", "ifelse",
+             "switch", "print-noautoescape", "literal",
+             "around-if", "around-else", "around-foreach", "around-switch", "around-let-if",
+             "between-log", "between-let", "between-callparam"}
+
+\* the mode a frame runs with after a command of kind K has been executed in it
+AfterCmd(K, loggerNil, on) ==
+  IF "log_leaves_escaping_off" \in DirDev /\ K \in {"log", "log-print", "between-log"} /\ loggerNil THEN FALSE ELSE on
+
+RenderSiteK(site, a, chain, v, K, loggerNil) ==
+  LET callerOn == AfterCmd(K, loggerNil, CallerOn(a))
+      calleeOn == AfterCmd(K, loggerNil, CalleeOn(a)) IN
+  CASE site = "direct" -> PrintText(callerOn, chain, v)
          \* {$x|chain}
-    [] site = "msg" -> PrintText(CallerOn(a), chain, v)
+    [] site = "msg" -> PrintText(callerOn, chain, v)
          \* {msg desc=""}{$x|chain}{/msg}
-    [] site = "let" -> PrintText(CallerOn(a), NoAuto, S(PrintText(CallerOn(a), chain, v)))
+    [] site = "let" -> PrintText(callerOn, NoAuto, S(PrintText(callerOn, chain, v)))
          \* {let $y}{$x|chain}{/let}{$y|noAutoescape}
-    [] site = "letesc" -> PrintText(CallerOn(a), <<>>, S(PrintText(CallerOn(a), chain, v)))
+    [] site = "letesc" -> PrintText(callerOn, <<>>, S(PrintText(callerOn, chain, v)))
          \* {let $y}{$x|chain}{/let}{$y}      (the captured text is data again)
-    [] site = "param" -> PrintText(CalleeOn(a), NoAuto, S(PrintText(CallerOn(a), chain, v)))
+    [] site = "param" -> PrintText(CalleeOn(a), NoAuto, S(PrintText(callerOn, chain, v)))
          \* {call .c}{param y}{$x|chain}{/param}{/call}   .c: {$y|noAutoescape}
-    [] site = "call" -> PrintText(CalleeOn(a), chain, v)
+    [] site = "call" -> PrintText(calleeOn, chain, v)
          \* {call .c}{param x: $x/}{/call}                 .c: {$x|chain}
-    [] site = "dataall" -> PrintText(CalleeOn(a), chain, v)
+    [] site = "dataall" -> PrintText(calleeOn, chain, v)
          \* {call .c data="all"/}                          .c: {$x|chain}
+
+RenderSite(site, a, chain, v) == RenderSiteK(site, a, chain, v, "none", TRUE)
+
+\* no command influences the commands after it
+CmdIndependent(site, a, chain, v, K, loggerNil) ==
+  RenderSiteK(site, a, chain, v, K, loggerNil) = RenderSite(site, a, chain, v)
 
 \* which frame executes the print under test, by the documentation
 DocOn(site, a) ==
